@@ -155,3 +155,41 @@ def _starvation_lemma():
 
 
 R.lemma("starvation_bound", "C17", _starvation_lemma)
+
+# ------------------------------------------------------------------ budget derivation (orchestrator/core.py:_derive_budgets)
+# "with scheduling enabled, slice budgets clamp stage work": the budgets a slice carries are exactly the configured
+# scheduler.budgets entries (int-converted, absent/None entries left out) plus quantum_ms (default 20).  cfg ranges over
+# every JSON-like value (Dyn); _get_cfg (namespace/dataclass flattening) is an assumed contract: returns ctx.cfg.
+CORE = "clematis/engine/orchestrator/core.py:"
+R.objtype("BudgetCtx", {"cfg": "Dyn"})
+_GC = R.contract(CORE + "_get_cfg", "C17", verify=False, callee=False, name="_get_cfg(assumed)",
+                 types={"ctx": "BudgetCtx"}, returns="Dyn", ensures=["dyn_same(result, ctx.cfg)"], modifies=[])
+_B = "sched_budgets_of(ctx.cfg)"
+_KEYS = ("t1_pops", "t1_iters", "t2_k", "t3_ops", "wall_ms")
+R.contract(
+    CORE + "_derive_budgets", "C17",
+    types={"ctx": "BudgetCtx"}, returns="Dict[str, int]",
+    funcs={CORE + "_get_cfg": _GC},
+    requires=[("cfg-is-a-mapping-with-mapping-subtrees",
+               "is_dict(ctx.cfg) and (is_dict(dget(ctx.cfg, 'scheduler', {})) or not dyn_truthy(dget(ctx.cfg, 'scheduler', {}))) and "
+               "is_dict(" + _B + ")")],
+    ensures=[("budget-%s-is-configured-value" % k,
+              "implies(is_dict(dget(ctx.cfg, 'scheduler', {})), "
+              "('%(k)s' in result) == ('%(k)s' in as_dict(%(b)s) and not is_null(as_dict(%(b)s)['%(k)s'])) and "
+              "implies('%(k)s' in result, result['%(k)s'] == dyn_int(as_dict(%(b)s)['%(k)s'])))" % {"k": k, "b": _B})
+             for k in _KEYS] + [
+        ("quantum-is-configured-or-20",
+         "result['quantum_ms'] == ite(is_dict(dget(ctx.cfg, 'scheduler', {})) and dyn_truthy(dget(ctx.cfg, 'scheduler', {})), "
+         "dyn_int(dget(dget(ctx.cfg, 'scheduler', {}), 'quantum_ms', 20)), 20)"),
+        ("nothing-else", "forall((k, 'str'), k in result, k == 'quantum_ms' or k == 't1_pops' or k == 't1_iters' or k == 't2_k' "
+                         "or k == 't3_ops' or k == 'wall_ms')"),
+    ],
+    raises=None,      # int() of a non-numeric leaf raises: the validator rejects such configs (C14)
+    loops={0: {"inv": [
+        "forall((k, 'str'), k in out, k == 't1_pops' or k == 't1_iters' or k == 't2_k' or k == 't3_ops' or k == 'wall_ms')",
+    ] + ["implies(_i > %d, ('%s' in out) == ('%s' in as_dict(b) and not is_null(as_dict(b)['%s'])) and "
+         "implies('%s' in out, out['%s'] == dyn_int(as_dict(b)['%s'])))" % (i, k, k, k, k, k, k) for i, k in enumerate(_KEYS)]
+      + ["implies(_i <= %d, not ('%s' in out))" % (i, k) for i, k in enumerate(_KEYS)]}},
+    locals={"out": "Dict[str, int]"},
+    feas_fresh=True, feas_timeout_ms=100,
+)
